@@ -129,6 +129,8 @@ def run(run, model):
     run.do(c17.invariant_decorator_table, model, "C14.invariant-returns-cls")
     run.do(twins.colour, model, "C14.colour")
     run.do(inv.install, model, "C14.install", "C14.new-guard")
+    from . import meta
+    run.do(meta.namespace_rebind_rule, model, "C14.namespace-rebind")
     run.minimum("C14.forward", 11)
     run.minimum("C14.result-identity", 11)
     run.minimum("C14.metadata", 3)
